@@ -92,6 +92,35 @@ func c09EmptyIndex(c *Ctx) {
 	if n == 0 {
 		c.bad("IndexPos:Chunks-indexing", token.NoPos, "the seekable reader no longer indexes Index.Chunks")
 	}
+	// the copy-on-read file: loadRange indexes the loader's chunk list with what indexRange
+	// answers, which is (-1,-1) for an index without chunks and (len,len) for an empty range at
+	// the end of the blob - both must have been excluded before
+	if fn := c.mustFn("sparseFileLoader.loadRange"); fn != nil {
+		isLenChunks := func(v ssa.Value) bool {
+			return hasOrigin(v, func(o string) bool { return o == "len:field:sparseFileLoader.chunks" })
+		}
+		isZero := func(v ssa.Value) bool { k, ok := v.(*ssa.Const); return ok && k.Value != nil && constInt64(k) == 0 }
+		isOne := func(v ssa.Value) bool { k, ok := v.(*ssa.Const); return ok && k.Value != nil && constInt64(k) == 1 }
+		isLength := func(v ssa.Value) bool { return len(fn.Params) >= 3 && isParam(v, fn.Params[2]) }
+		m := 0
+		for _, g := range fnsDeep(fn) {
+			instrs(g, func(_ *ssa.BasicBlock, _ int, ins ssa.Instruction) {
+				ia, ok := ins.(*ssa.IndexAddr)
+				if !ok || ins.Parent() != g || !hasOrigin(ia.X, func(o string) bool { return o == "field:sparseFileLoader.chunks" }) {
+					return
+				}
+				m++
+				okN, _ := guarded(fn, ia, relAcc(token.NEQ, isLenChunks, isZero))
+				okL1, _ := guarded(fn, ia, relAcc(token.GEQ, isLength, isOne))
+				okL0, _ := guarded(fn, ia, relAcc(token.GTR, isLength, isZero))
+				c.verdict(okN && (okL1 || okL0), fmt.Sprintf("sparseFileLoader.loadRange:chunks-index%d", m), ia.Pos(), "indexed only for a non-empty range of a non-empty chunk list",
+					"the loader's chunk list is indexed with the answer of indexRange without having excluded an index without chunks and an empty range: reading the copy-on-read file of an empty blob, or zero bytes at its end, panics with the read lock held")
+			})
+		}
+		if m == 0 {
+			c.info("sparseFileLoader.loadRange:chunks-index", fn.Pos(), "loadRange does not index the chunk list itself")
+		}
+	}
 }
 
 func c09ErrorsSurface(c *Ctx) {
